@@ -131,6 +131,8 @@ def main(tier, replay):
     for i in range(nrand // 10):
         ch, h = C.gen_done_chart(base + 800000 + i)
         cases.append(('d%d' % i, 'fam', ch, ('lua', 'null')[i % 2], h))
+        ch, h = C.gen_hist_chart(base + 850000 + i)
+        cases.append(('h%d' % i, 'fam', ch, ('lua', 'null')[i % 2], h))
     fam = list(C.family_E(2, 2)) if tier == 'quick' else list(C.family_E(3, 2))
     n = 0
     for ch in fam:
